@@ -21,6 +21,7 @@ func main() {
 	case "C15":
 		vsched.TrackStates = false
 		runC15(R)
+		finishSched(R)
 	case "C19":
 		vsched.TrackStates = false
 		runC19(R)
@@ -29,6 +30,11 @@ func main() {
 		runGrid(R, prop)
 	case "C04":
 		runC04(R)
+	case "C18":
+		vsched.TrackStates = false
+		runC18conn(R)
+	case "C20":
+		runC20(R)
 	case "C13":
 		runC13(R)
 	case "C05":
